@@ -3,6 +3,7 @@ package props
 
 import (
 	_ "go.amzn.com/verifh/c01"
+	_ "go.amzn.com/verifh/c02"
 	_ "go.amzn.com/verifh/c03"
 	_ "go.amzn.com/verifh/c04"
 	_ "go.amzn.com/verifh/c05"
